@@ -355,7 +355,9 @@ func execTimed(in []string) (out string) {
 	} else if res.out == "err:timeout" && res.dur < tmo {
 		verdict = "early:" + itoa(int((tmo-res.dur)/time.Millisecond))
 	}
-	return res.out + " " + verdict + " " + strconv.FormatInt(int64(bound), 10)
+	// the measured duration lets the model side compare with the finish time it
+	// predicts for THIS peer behaviour (tighter than the behaviour-independent bound)
+	return res.out + " " + verdict + " " + strconv.FormatInt(int64(bound), 10) + " dur=" + strconv.FormatInt(int64(res.dur/time.Microsecond), 10)
 }
 
 // ------------------------------------------------------------------ pty
@@ -615,6 +617,21 @@ func scnTimed(o *Out, r *Rng, thorough bool) {
 					o.Stat("timed:scheme:" + su.scheme)
 				}
 			}
+		}
+	}
+	// a long request on a slow line (about 290 ms on the wire at 9600 bps) with a
+	// timeout longer than that: the call must end at the deadline armed BEFORE
+	// the transmission, not one timeout after it
+	for _, su := range []c07Setup{{"s:rtuovertcp", 9600}, {"l:rtuovertcp", 9600}} {
+		big := []string{"WriteRegisters", "10", "rep:123:1234"}
+		for _, c := range c07Cases(r, su.scheme, 400, big, false) {
+			if c.beh != "silent" && c.beh != "stall" {
+				continue
+			}
+			ct, ch := c.tokens()
+			ins = append(ins, strings.Join(append([]string{su.scheme, itoa(su.speed), "400", c.beh, ct, ch}, big...), " "))
+			behs = append(behs, c.beh)
+			o.Stat("timed:beh:" + c.beh + ":long-request")
 		}
 	}
 	// cases of the same behaviour last equally long: run them in the same batch
